@@ -805,7 +805,7 @@ impl Decryptor {
         if scheme != SchemeType::BFV && scheme != SchemeType::BGV {
             panic!("[Logic error] Unsupported scheme.");
         }
-        if encrypted.is_ntt_form() {
+        if scheme == SchemeType::BFV && encrypted.is_ntt_form() {
             panic!("[Invalid argument] Ciphertext is in NTT form.");
         }
         let context_data = self.context.get_context_data(encrypted.parms_id()).unwrap();
@@ -824,6 +824,11 @@ impl Decryptor {
         // Now do the dot product of encrypted_copy and the secret key array using NTT.
         // The secret key powers are already NTT transformed.
         self.dot_product_ct_sk_array(encrypted, noise_poly.as_mut_slice());
+
+        // BGV ciphertexts are kept in NTT form; the phase comes out in the same form
+        if encrypted.is_ntt_form() {
+            polymod::intt_p(&mut noise_poly, coeff_count, context_data.small_ntt_tables());
+        }
         
         // Multiply by plain_modulus and reduce mod coeff_modulus to get
         // coeffModulus()*noise.
